@@ -338,6 +338,38 @@ pub fn run(ctx: &Ctx) -> i32 {
         st.count(&format!("random_{name}"));
         check_case(ctx, st, &tcs, s);
     });
+    // builder histories: setters repeated / overridden, builds interleaved, clones — the result of every build
+    // must be valid for the settings accumulated at that point
+    let n = if ctx.thorough { 100_000 } else { 3_000 };
+    par_for(&ctx.run, n, |i, st| {
+        let mut rng = Rng::new(seed, 0x72_0000 + i as u64);
+        let (_, al) = &alphabets[i % alphabets.len()];
+        let tcs: Vec<String> = gen::family(&mut rng, al).into_iter().map(|t| t.chars().take(10).collect()).collect();
+        let (list, ops) = crate::c10::gen_history(&mut rng, &tcs);
+        st.evaluations += 1;
+        st.count("builder_histories");
+        match catch_unwind(AssertUnwindSafe(|| crate::c10::exec_history(&list, &ops))) {
+            Err(_) => st.violation("panic", format!("history panicked: {}", take_panic()), json!({"what": "history", "list": list, "ops": format!("{ops:?}")})),
+            Ok(results) => {
+                st.decided += 1;
+                for (k, acc, out, _) in results {
+                    if acc.has(SURR) || acc.has(COLOR) {
+                        continue;
+                    }
+                    st.count("history_builds_checked");
+                    if let Err(Ok(syntax)) = accepted(&out) {
+                        if !nest_limit_only(&out, &syntax) {
+                            st.violation(
+                                "invalid_regex",
+                                format!("after the call history the settings are {:?} but build() (op {k}) returns {:?}: {}", acc.names(), out, syntax.lines().last().unwrap_or("")),
+                                json!({"what": "history", "list": list, "ops": format!("{ops:?}"), "output": out}),
+                            );
+                        }
+                    }
+                }
+            }
+        }
+    });
     {
         let mut st = Stats::new();
         large_inputs(ctx, &mut st);
